@@ -128,6 +128,7 @@ class ProgramVerifier:
 
     def new_exec(self, decl):
         ex = GenExec(self.reg, self.V, self.spec, self.decls)
+        self._cur_ex = ex
         ex.progress = self.progress
         ex.ctx_chunked = self.ctx_chunked
         ex.loop_lists = {}
@@ -261,6 +262,8 @@ class ProgramVerifier:
             referenced = {i.length for i in flat if i.tag in ("field", "array") and i.length in lengths}
             for fd in fields:
                 if fd["hardcoded"] is not None:
+                    # a named hard-coded field is still a (ignored) constructor parameter: any value
+                    env[fd["name"]] = self.sym_field(ex, dict(fd, hardcoded=None), fd["name"], for_init=True)
                     continue
                 v = self.sym_field(ex, fd, fd["name"], for_init=True)
                 ins = fd["ins"]
@@ -310,13 +313,26 @@ class ProgramVerifier:
                 if got is None:
                     ex.oblige("ctor-length", z3.BoolVal(False), lname, {"why": "length field not set"})
                     continue
-                ex.oblige("ctor-length", z3.Implies(z3.Not(a.isnone), ex.as_int(got) == z3.Length(a.val.t)), lname,
+                if isinstance(got, MaybeV):
+                    cond = z3.And(got.isnone == a.isnone,
+                                  z3.Implies(z3.Not(a.isnone), got.val == z3.Length(a.val.t)))
+                elif got is NONE:
+                    cond = a.isnone
+                else:
+                    cond = z3.Implies(z3.Not(a.isnone), ex.as_int(got) == z3.Length(a.val.t))
+                ex.oblige("ctor-length", cond, lname,
                           {"why": "length field differs from the length of the field that references it",
                            "property": "C02"})
         ex.explore(run)
         return ex
 
     def same_value(self, got, a):
+        ex = getattr(self, "_cur_ex", None)
+        if ex is not None:
+            if isinstance(got, Ref) and ex.zseq(got) is not None:
+                got = ex.zseq(got)
+            if isinstance(a, Ref) and ex.zseq(a) is not None:
+                a = ex.zseq(a)
         if isinstance(got, MaybeV) and isinstance(a, MaybeV):
             return z3.And(got.isnone == a.isnone, z3.Implies(z3.Not(a.isnone), self.same_value(got.val, a.val)))
         if isinstance(a, MaybeV):
@@ -367,6 +383,9 @@ class ProgramVerifier:
                 for s in init.body():
                     if isinstance(s, ast.Assign) and isinstance(s.targets[0], ast.Attribute) and s.targets[0].attr == "_" + fd["name"]:
                         v = s.value
+                        if isinstance(v, ast.IfExp) and isinstance(v.body, ast.Constant) and v.body.value is None \
+                                and ast.unparse(v.test) == f"{fd['name']} is None":
+                            v = v.orelse          # None stays None (absent optional array)
                         found = (isinstance(v, ast.Call) and isinstance(v.func, ast.Name) and v.func.id == "tuple"
                                  and len(v.args) == 1 and isinstance(v.args[0], ast.Name) and v.args[0].id == fd["name"])
                 ob("array-is-tuple-copy", found, fd["name"], f"array field {fd['name']} is not stored as tuple({fd['name']})")
